@@ -228,6 +228,87 @@ fn render(case: &Case, modes: &[u8]) -> (String, Vec<usize>, Vec<i64>) {
     )
 }
 
+/// Operands that *fail*, next to operands with effects: in every n-ary construct the operands are
+/// evaluated left to right until the first one that fails - the effects of those before it have
+/// happened, those after it have not, and the error is that operand's - also when the failing
+/// operand is a constant operation on values captured by a function value made at run time (the
+/// folder knows it cannot succeed when the function value is created). Every assignment of
+/// {effectful, division by a zero, index out of range} to three positions with at least one failing.
+fn failing_operands_among_effects() -> (u64, Vec<Violation>) {
+    use simplesl::variable::{Mut, Type};
+    use std::sync::Arc;
+    const CONSTRUCTS: &[(&str, &str)] = &[
+        ("tuple", "({0}, {1}, {2})"),
+        ("array", "[{0}, {1}, {2}]"),
+        ("call arguments", "g3({0}, {1}, {2})"),
+        ("struct", "struct{ a := {0}, b := {1}, c := {2} }"),
+        ("sum", "{0} + {1} + {2}"),
+        ("nested tuple", "(({0}, {1}), {2})"),
+        ("tuple then selection", "({0}, {1}, {2}).0"),
+        ("array then index", "[{0}, {1}, {2}][0]"),
+        ("array repeat in a tuple", "([{0}; 1], {1}, {2})"),
+        ("argument list of a call in a tuple", "(g3({0}, {1}, 0), {2})"),
+    ];
+    const CONTEXTS: &[(&str, &str)] = &[
+        ("captured by a function value made at run time", "mk := (d: int, e: int) -> () -> any { return () -> any { return EXPR } }; g := mk(0, 5); g()"),
+        ("captured, bound to a name first", "mk := (d: int, e: int) -> () -> any { return () -> any { r := EXPR; return r } }; g := mk(0, 5); g()"),
+        ("parameters of the function itself", "h := (d: int, e: int) -> any { return EXPR }; h(0, 5)"),
+        ("captured two levels up", "mk := (d: int, e: int) -> () -> any { return () -> any { inner := () -> any { return EXPR }; return inner() } }; g := mk(0, 5); g()"),
+    ];
+    let mut out = Vec::new();
+    let mut n = 0u64;
+    for (cname, ctext) in CONSTRUCTS {
+        for (xname, xtext) in CONTEXTS {
+            for mask in 0..27usize {
+                let kinds: Vec<usize> = (0..3).map(|i| (mask / 3usize.pow(i as u32)) % 3).collect();
+                if !kinds.iter().any(|k| *k != 0) {
+                    continue;
+                }
+                let mut expr = ctext.to_string();
+                let mut want_log: Vec<String> = Vec::new();
+                let mut want_err = "";
+                for (i, k) in kinds.iter().enumerate() {
+                    let operand = match k {
+                        0 => format!("t({}, 1)", i + 1),
+                        1 => "1 / d".to_string(),
+                        _ => "[1][e]".to_string(),
+                    };
+                    expr = expr.replace(&format!("{{{i}}}"), &operand);
+                    if want_err.is_empty() {
+                        match k {
+                            0 => want_log.push((i + 1).to_string()),
+                            1 => want_err = "ZeroDivision",
+                            _ => want_err = "IndexOutOfBounds",
+                        }
+                    }
+                }
+                let text = format!("t := (i: int, v: int) -> int {{ log += [i]; return v }}; g3 := (a: int, b: int, c: int) -> int {{ return 0 }}; {}", xtext.replace("EXPR", &expr));
+                let log = Arc::new(Mut { var_type: "mut [int]".parse::<Type>().unwrap().mut_element_type().unwrap(), variable: Variable::from(Vec::<Variable>::new()).into() });
+                let mut interp = Interpreter::with_stdlib();
+                interp.insert("log".into(), Variable::Mut(log.clone()));
+                n += 1;
+                let res = match guard(|| Code::parse(&interp, &text).map(|c| c.exec())) {
+                    Ok(Ok(Ok(v))) => format!("value {}", canon(&v)),
+                    Ok(Ok(Err(e))) => format!("error:{}", core::exec_error_kind(&e)),
+                    Ok(Err(e)) => format!("rejected:{}", core::error_kind(&e)),
+                    Err(Stop::Panic(pn)) => format!("PANIC {} @{}", pn.short_msg(), pn.file()),
+                    Err(Stop::Exhausted) => continue,
+                };
+                let logged = log.variable.read().map(|g| canon(&g)).unwrap_or_else(|_| "<poisoned>".into());
+                let (want_res, want_logged) = (format!("error:{want_err}"), format!("[{}]", want_log.join(", ")));
+                if res != want_res || logged != want_logged {
+                    let shape: String = kinds.iter().map(|k| ['E', 'z', 'i'][*k]).collect();
+                    out.push(Violation {
+                        sig: format!("C07|failing-operand-among-effects|{cname}|{xname}|operands={shape}"),
+                        detail: json!({"kind": "program", "stdlib": true, "text": text, "note": "`log` is a cell the host put into the interpreter before the run", "expected": {"result": want_res, "log": want_logged}, "observed": {"result": res, "log": logged}}),
+                    });
+                }
+            }
+        }
+    }
+    (n, out)
+}
+
 #[derive(Default)]
 struct Acc {
     programs: u64,
@@ -348,6 +429,8 @@ pub fn run(tier: &str) -> i32 {
     // an operation in a branch that is not chosen, or in a function that is not called, is not
     // evaluated - not even by the folder when the function value capturing its operands is created
     let unreached = crate::core::on_big_stack(|| crate::props::c12::unreached_failures("C07"));
+    let failing_operands = crate::core::on_big_stack(failing_operands_among_effects);
+    report.violations(failing_operands.1);
     // which branch is the chosen one: if-set, match type arms and `? T` choose by the run-time type
     // of the value, whatever the checker knows about the tested expression (shared with C10)
     let membership = crate::props::c10::language_membership();
@@ -355,6 +438,7 @@ pub fn run(tier: &str) -> i32 {
     report.violations(unreached.1);
     let coverage = json!({
         "unreached_failure_cases": unreached.0,
+        "failing_operands_among_effects (10 constructs x 4 contexts x 26 assignments of {effect, /0, index} to three operands)": failing_operands.0,
         "branch_choice_cases (if-set / match type arm / ? T on value x tested type x static type; shared with C10)": membership.0,
         "states": programs,
         "transitions": programs,
